@@ -342,6 +342,12 @@ static void CELLO_NASAN GC_Mark_Stack(struct GC* gc) {
   var bot = gc->bottom;
   var top = &stk;
   
+#ifdef CELLO_VERIF
+  /* verification hook: lets a harness supply the stack segment to scan */
+  extern var cello_verif_stack_top(var top);
+  top = cello_verif_stack_top(top);
+#endif
+  
   if (bot == top) { return; }
   
   if (bot < top) {
